@@ -240,6 +240,8 @@ struct Obs {
     ad: Vec<Rr>,
     /// contacted during this resolution
     contacted: Vec<(Ip, Q)>,
+    /// number of upstream queries sent during this resolution
+    nsent: usize,
     detail: String,
 }
 
@@ -269,7 +271,7 @@ fn run_case(cfg: &Cfg, net: Arc<dyn Net>, queries: &[Q], cap: usize) -> (Vec<Obs
         let recursor = match Recursor::with_options(&roots, opts, provider) {
             Ok(r) => r,
             Err(e) => {
-                out.push(Obs { class: 9, an: vec![], au: vec![], ad: vec![], contacted: vec![], detail: format!("build: {e}") });
+                out.push(Obs { class: 9, an: vec![], au: vec![], ad: vec![], contacted: vec![], nsent: 0, detail: format!("build: {e}") });
                 return;
             }
         };
@@ -278,7 +280,7 @@ fn run_case(cfg: &Cfg, net: Arc<dyn Net>, queries: &[Q], cap: usize) -> (Vec<Obs
             let query = Query::new(to_name(&q.0), to_rtype(q.1));
             let fut = recursor.resolve(query, Instant::now(), false);
             let res = tokio::time::timeout(Duration::from_secs(600), fut).await;
-            let mut obs = Obs { class: 9, an: vec![], au: vec![], ad: vec![], contacted: vec![], detail: String::new() };
+            let mut obs = Obs { class: 9, an: vec![], au: vec![], ad: vec![], contacted: vec![], nsent: 0, detail: String::new() };
             match res {
                 Err(_) => obs.detail = "hang (virtual 600 s)".into(),
                 Ok(Ok(m)) => {
@@ -320,6 +322,7 @@ fn run_case(cfg: &Cfg, net: Arc<dyn Net>, queries: &[Q], cap: usize) -> (Vec<Obs
             obs.ad.sort();
             let l = log.lock().unwrap();
             let mut c: Vec<(Ip, Q)> = l[before..].iter().map(|(ip, q, _)| (*ip, q.clone())).collect();
+            obs.nsent = c.len();
             c.sort();
             c.dedup();
             obs.contacted = c;
@@ -329,6 +332,1078 @@ fn run_case(cfg: &Cfg, net: Arc<dyn Net>, queries: &[Q], cap: usize) -> (Vec<Obs
     drop(rt);
     let l = log.lock().unwrap().clone();
     (out, l)
+}
+
+// ---------------------------------------------------------------------------------------------
+// simulated internet: a zone tree served by authoritative servers, plus hostile servers
+
+#[derive(Clone, Debug)]
+struct Zone {
+    name: Nm,
+    parent: Option<usize>,
+    servers: Vec<Ip>,
+    /// NS names as published by the parent and at the apex
+    ns: Vec<Nm>,
+    /// parent adds glue for the names it can know
+    glue: bool,
+    recs: BTreeMap<Nm, Vec<Rd>>,
+    /// CNAME fan-out width for synthetic names l<k>.<zone>
+    fan: u8,
+}
+
+#[derive(Clone, Debug)]
+struct World {
+    seed: u64,
+    zones: Vec<Zone>,
+    /// hostility level per server (0 = honest)
+    hostile: BTreeMap<Ip, u8>,
+    evil: Ip,
+    lame_code: u8,
+    chain_in_answer: bool,
+    poison: Vec<Rr>,
+}
+
+const EVIL_NS: [u8; 2] = [2, 5]; // e.b.
+
+fn hash3(seed: u64, ip: Ip, q: &Q) -> u64 {
+    let mut s = format!("{seed}/{ip:?}/{}/", q.1);
+    for l in &q.0 {
+        s.push_str(&format!("{l}."));
+    }
+    fnv(&s)
+}
+
+impl World {
+    fn addr_of(&self, n: &Nm) -> Vec<Rd> {
+        // ground truth: address records of the deepest zone containing the name
+        let mut best: Option<&Zone> = None;
+        for z in &self.zones {
+            if is_sub(&z.name, n) && best.map_or(true, |b| z.name.len() > b.name.len()) {
+                best = Some(z);
+            }
+        }
+        best.and_then(|z| z.recs.get(n))
+            .map(|v| v.iter().filter(|d| matches!(d, Rd::A(_) | Rd::Aaaa(_))).cloned().collect())
+            .unwrap_or_default()
+    }
+
+    fn evil_answer(&self, q: &Q) -> Resp {
+        match q.1 {
+            T_A => Resp { rcode: 0, aa: true, an: vec![Rr { owner: q.0.clone(), rd: Rd::A(v4(6, 6, 6, 6)) }], au: vec![], ad: vec![] },
+            _ => Resp { rcode: 0, aa: true, an: vec![], au: vec![Rr { owner: q.0.clone(), rd: Rd::Soa }], ad: vec![] },
+        }
+    }
+
+    fn base_answer(&self, ip: Ip, q: &Q) -> Resp {
+        if ip == self.evil {
+            return self.evil_answer(q);
+        }
+        let (qn, qt) = (&q.0, q.1);
+        let mut zi: Option<usize> = None;
+        for (i, z) in self.zones.iter().enumerate() {
+            if z.servers.contains(&ip) && is_sub(&z.name, qn) && zi.map_or(true, |b| z.name.len() > self.zones[b].name.len()) {
+                zi = Some(i);
+            }
+        }
+        let Some(zi) = zi else {
+            return Resp { rcode: self.lame_code, ..Default::default() };
+        };
+        let z = &self.zones[zi];
+        // delegation below this zone?
+        for c in self.zones.iter().filter(|c| c.parent == Some(zi)) {
+            if is_sub(&c.name, qn) && !(qt == T_DS && *qn == c.name) {
+                let au: Vec<Rr> = c.ns.iter().map(|n| Rr { owner: c.name.clone(), rd: Rd::Ns(n.clone()) }).collect();
+                let mut ad = vec![];
+                if c.glue {
+                    for n in &c.ns {
+                        if is_sub(&z.name, n) {
+                            for d in self.addr_of(n) {
+                                ad.push(Rr { owner: n.clone(), rd: d });
+                            }
+                        }
+                    }
+                }
+                return Resp { rcode: 0, aa: false, an: vec![], au, ad };
+            }
+        }
+        let soa = Rr { owner: z.name.clone(), rd: Rd::Soa };
+        // synthetic CNAME fan-out
+        if z.fan > 0 && qn.len() == z.name.len() + 1 && qn[z.name.len()] > 26 && qn[z.name.len()] < 230 && qt == T_NS {
+            return Resp { rcode: 0, aa: true, an: vec![], au: vec![soa], ad: vec![] };
+        }
+        if z.fan > 0 && qn.len() == z.name.len() + 1 && qn[z.name.len()] > 26 && qn[z.name.len()] < 230 {
+            let k = qn[z.name.len()] as u32 - 26;
+            let w = z.fan as u32;
+            let mut an = vec![];
+            for j in 1..=w {
+                let t = k * w + j;
+                if t + 26 <= 225 {
+                    let mut tn = z.name.clone();
+                    tn.push((t + 26) as u8);
+                    an.push(Rr { owner: qn.clone(), rd: Rd::Cname(tn) });
+                }
+            }
+            if an.is_empty() {
+                an.push(Rr { owner: qn.clone(), rd: Rd::A(v4(20, 9, 9, 9)) });
+            }
+            return Resp { rcode: 0, aa: true, an, au: vec![], ad: vec![] };
+        }
+        let here: Vec<Rd> = z.recs.get(qn).cloned().unwrap_or_default();
+        let matching: Vec<Rd> = here.iter().filter(|d| qt == T_ANY || rtype(d) == qt).cloned().collect();
+        if !matching.is_empty() {
+            let an: Vec<Rr> = matching.iter().map(|d| Rr { owner: qn.clone(), rd: d.clone() }).collect();
+            let mut ad = vec![];
+            if qt == T_NS {
+                for d in &matching {
+                    if let Rd::Ns(n) = d {
+                        if is_sub(&z.name, n) {
+                            for a in self.addr_of(n) {
+                                ad.push(Rr { owner: n.clone(), rd: a });
+                            }
+                        }
+                    }
+                }
+            }
+            return Resp { rcode: 0, aa: true, an, au: vec![], ad };
+        }
+        if let Some(Rd::Cname(t)) = here.iter().find(|d| matches!(d, Rd::Cname(_))) {
+            let mut an = vec![Rr { owner: qn.clone(), rd: Rd::Cname(t.clone()) }];
+            if self.chain_in_answer {
+                let mut cur = t.clone();
+                for _ in 0..3 {
+                    let Some(rs) = z.recs.get(&cur) else { break };
+                    let m: Vec<&Rd> = rs.iter().filter(|d| rtype(d) == qt).collect();
+                    if !m.is_empty() {
+                        for d in m {
+                            an.push(Rr { owner: cur.clone(), rd: d.clone() });
+                        }
+                        break;
+                    }
+                    if let Some(Rd::Cname(t2)) = rs.iter().find(|d| matches!(d, Rd::Cname(_))) {
+                        an.push(Rr { owner: cur.clone(), rd: Rd::Cname(t2.clone()) });
+                        cur = t2.clone();
+                    } else {
+                        break;
+                    }
+                }
+            }
+            return Resp { rcode: 0, aa: true, an, au: vec![], ad: vec![] };
+        }
+        let exists = !here.is_empty()
+            || *qn == z.name
+            || z.recs.keys().any(|k| is_sub(qn, k))
+            || self.zones.iter().any(|c| c.parent == Some(zi) && is_sub(qn, &c.name));
+        if exists {
+            Resp { rcode: 0, aa: true, an: vec![], au: vec![soa], ad: vec![] }
+        } else {
+            Resp { rcode: 3, aa: true, an: vec![], au: vec![soa], ad: vec![] }
+        }
+    }
+}
+
+impl Net for World {
+    fn answer(&self, ip: Ip, q: &Q) -> Resp {
+        let mut r = self.base_answer(ip, q);
+        let h = *self.hostile.get(&ip).unwrap_or(&0);
+        if h == 0 || self.poison.is_empty() {
+            return r;
+        }
+        let mut g = Rng::new(hash3(self.seed, ip, q));
+        g.next();
+        if g.below(4) >= h as u64 {
+            return r;
+        }
+        let k = g.range(1, 3);
+        for _ in 0..k {
+            let mut p = g.pick(&self.poison).clone();
+            // sometimes aim the record at the query name itself
+            if g.chance(1, 4) {
+                p.owner = q.0.clone();
+            }
+            match g.below(3) {
+                0 => r.an.push(p),
+                1 => r.au.push(p),
+                _ => r.ad.push(p),
+            }
+        }
+        if g.chance(1, 8) {
+            r.rcode = *g.pick(&[0u8, 3, 3, 2, 5, 11]);
+        }
+        if g.chance(1, 8) {
+            r.aa = !r.aa;
+        }
+        r
+    }
+}
+
+fn cat(z: &Nm, l: &[u8]) -> Nm {
+    // l is written leaf-first: cat(x.a, [n]) = n.x.a ; cat(x.a,[p,q]) = p.q.x.a
+    let mut v = z.clone();
+    for x in l.iter().rev() {
+        v.push(*x);
+    }
+    v
+}
+
+const L_A: u8 = 1;
+const L_B: u8 = 2;
+const L_C: u8 = 3;
+const L_D: u8 = 4;
+const L_E: u8 = 5;
+const L_K: u8 = 11;
+const L_L: u8 = 12;
+const L_M: u8 = 13;
+const L_N: u8 = 14;
+const L_P: u8 = 16;
+const L_Q: u8 = 17;
+const L_S: u8 = 19;
+const L_T: u8 = 20;
+const L_V: u8 = 22;
+const L_W: u8 = 23;
+const L_X: u8 = 24;
+const L_Y: u8 = 25;
+
+struct Gen {
+    world: World,
+    cfg: Cfg,
+    queries: Vec<Q>,
+    kind: &'static str,
+    /// (query index, expected class, records that must be among the answers)
+    expect: Vec<(usize, u8, Vec<Rr>)>,
+}
+
+fn add_rec(z: &mut Zone, n: Nm, d: Rd) {
+    let e = z.recs.entry(n).or_default();
+    if !e.contains(&d) {
+        e.push(d);
+    }
+}
+
+fn gen_case(r: &mut Rng, index: u64) -> Gen {
+    let kind = match index % 8 {
+        0 => "clean",
+        1 | 2 | 3 => "hostile",
+        4 => "loops",
+        5 => "lame",
+        6 => "limits",
+        _ => "fan",
+    };
+    let clean = kind == "clean";
+    let mut next_ip = 0u32;
+    let mut fresh_ip = |r: &mut Rng, clean: bool| -> Ip {
+        next_ip += 1;
+        let net: u32 = if clean {
+            20
+        } else {
+            match r.below(24) {
+                0 | 1 => 21,
+                2 => 22,
+                _ => 20,
+            }
+        };
+        let sub: u32 = if net != 20 && r.chance(1, 2) { 5 } else { 0 };
+        if !clean && r.chance(1, 12) {
+            Ip::V6((0x2001_0db9u128 << 96) | next_ip as u128)
+        } else {
+            Ip::V4((net << 24) | (sub << 16) | (1 << 8) | next_ip)
+        }
+    };
+    // zone tree
+    let mut zones: Vec<Zone> = vec![];
+    let nroot = if clean { 1 } else { r.range(1, 2) };
+    let root_ips: Vec<Ip> = (0..nroot).map(|i| Ip::V4(v4(20, 0, 0, 1 + i as u8))).collect();
+    zones.push(Zone { name: vec![], parent: None, servers: root_ips.clone(), ns: vec![], glue: true, recs: BTreeMap::new(), fan: 0 });
+    let tlds: Vec<u8> = if r.chance(1, 2) { vec![L_A, L_B] } else { vec![L_A] };
+    for t in &tlds {
+        let n = r.range(1, 2);
+        let servers = (0..n).map(|_| fresh_ip(r, clean)).collect();
+        zones.push(Zone { name: vec![*t], parent: Some(0), servers, ns: vec![], glue: true, recs: BTreeMap::new(), fan: 0 });
+    }
+    let ntld = zones.len();
+    for zi in 1..ntld {
+        for l in [L_X, L_Y] {
+            if r.chance(3, 5) {
+                let name = if !clean && r.chance(1, 6) { cat(&zones[zi].name, &[l, L_T]) } else { cat(&zones[zi].name, &[l]) };
+                let n = r.range(1, 2);
+                let servers = (0..n).map(|_| fresh_ip(r, clean)).collect();
+                zones.push(Zone { name, parent: Some(zi), servers, ns: vec![], glue: true, recs: BTreeMap::new(), fan: 0 });
+            }
+        }
+    }
+    let nsld = zones.len();
+    for zi in ntld..nsld {
+        if r.chance(1, 3) {
+            let name = cat(&zones[zi].name, &[L_S]);
+            let servers = if r.chance(1, 4) { zones[zi].servers.clone() } else { vec![fresh_ip(r, clean)] };
+            zones.push(Zone { name, parent: Some(zi), servers, ns: vec![], glue: true, recs: BTreeMap::new(), fan: 0 });
+        }
+    }
+    // NS naming
+    let nz = zones.len();
+    for zi in 1..nz {
+        let style = match kind {
+            "clean" => *r.pick(&[0u64, 0, 2]),
+            "hostile" => *r.pick(&[0u64, 0, 0, 0, 2, 2, 3, 5, 6]),
+            "loops" => *r.pick(&[0u64, 0, 1, 3, 3, 5]),
+            "lame" => *r.pick(&[0u64, 0, 2, 4, 6, 1]),
+            _ => *r.pick(&[0u64, 0, 0, 2, 5]),
+        };
+        let zname = zones[zi].name.clone();
+        let pi = zones[zi].parent.unwrap();
+        let servers = zones[zi].servers.clone();
+        let lame = kind == "lame" && r.chance(1, 3);
+        let addr_for = |k: usize, r: &mut Rng| -> Ip {
+            if lame {
+                Ip::V4(v4(20, 0, 7, r.range(1, 3) as u8))
+            } else {
+                servers[k % servers.len()]
+            }
+        };
+        let mut nsn: Vec<(Nm, usize)> = vec![]; // (ns name, zone that holds its address)
+        match style {
+            0 | 1 => {
+                nsn.push((cat(&zname, &[L_N]), zi));
+                if servers.len() > 1 {
+                    nsn.push((cat(&zname, &[L_M]), zi));
+                }
+                zones[zi].glue = style == 0;
+            }
+            2 => {
+                let pn = zones[pi].name.clone();
+                nsn.push((cat(&pn, &[229 + *zname.last().unwrap()]), pi));
+            }
+            3 => {
+                // host in some other zone (cycles possible)
+                let oi = 1 + r.below((nz - 1) as u64) as usize;
+                let on = zones[oi].name.clone();
+                nsn.push((cat(&on, &[L_N]), oi));
+                zones[zi].glue = r.chance(1, 2);
+            }
+            4 => {
+                nsn.push((vec![9, 9], usize::MAX));
+                if r.chance(1, 2) {
+                    nsn.push((cat(&zname, &[L_N]), zi));
+                }
+            }
+            5 => {
+                nsn.push((zname.clone(), zi));
+                zones[zi].glue = r.chance(2, 3);
+            }
+            _ => {
+                nsn.push((cat(&zname, &[L_N]), zi));
+                let oi = r.below(nz as u64) as usize;
+                let on = zones[oi].name.clone();
+                nsn.push((cat(&on, &[L_M, L_N]), oi));
+            }
+        }
+        for (k, (n, holder)) in nsn.iter().enumerate() {
+            zones[zi].ns.push(n.clone());
+            if *holder != usize::MAX {
+                let a = addr_for(k, r);
+                let d = match a {
+                    Ip::V4(x) => Rd::A(x),
+                    Ip::V6(x) => Rd::Aaaa(x),
+                };
+                add_rec(&mut zones[*holder], n.clone(), d);
+            }
+        }
+        let nsl = zones[zi].ns.clone();
+        for n in nsl {
+            add_rec(&mut zones[zi], zname.clone(), Rd::Ns(n));
+        }
+    }
+    // hosts
+    let mut hosts: Vec<Nm> = vec![];
+    for zi in 1..nz {
+        let zn = zones[zi].name.clone();
+        let hip = |r: &mut Rng| -> u32 {
+            let net = if clean { 20 } else { *r.pick(&[20u32, 20, 20, 22, 22]) };
+            let sub = if net == 22 && r.chance(1, 2) { 5 } else { 0 };
+            (net << 24) | (sub << 16) | (2 << 8) | r.range(1, 200) as u32
+        };
+        let w = cat(&zn, &[L_W]);
+        add_rec(&mut zones[zi], w.clone(), Rd::A(hip(r)));
+        hosts.push(w.clone());
+        if r.chance(1, 2) {
+            let v = cat(&zn, &[L_V]);
+            add_rec(&mut zones[zi], v.clone(), Rd::A(hip(r)));
+            add_rec(&mut zones[zi], v.clone(), Rd::Aaaa((0x2001_0db9u128 << 96) | (2 << 16) | r.range(1, 200) as u128));
+            add_rec(&mut zones[zi], v.clone(), Rd::Other(T_TXT));
+            hosts.push(v);
+        }
+        if r.chance(1, 2) {
+            let c = cat(&zn, &[L_C]);
+            add_rec(&mut zones[zi], c.clone(), Rd::Cname(w.clone()));
+            hosts.push(c);
+        }
+        if !clean || r.chance(1, 3) {
+            if r.chance(1, 2) {
+                // CNAME into another zone
+                let oi = 1 + r.below((nz - 1) as u64) as usize;
+                let t = cat(&zones[oi].name.clone(), &[L_W]);
+                let d = cat(&zn, &[L_D]);
+                add_rec(&mut zones[zi], d.clone(), Rd::Cname(t));
+                hosts.push(d);
+            }
+        }
+        if !clean && r.chance(1, 3) {
+            let e = cat(&zn, &[L_E]);
+            add_rec(&mut zones[zi], e.clone(), Rd::Cname(cat(&zn, &[L_Q])));
+            hosts.push(e);
+        }
+        if (kind == "loops" || kind == "limits") && r.chance(2, 3) {
+            // loop l -> p -> l (p possibly in another zone)
+            let l = cat(&zn, &[L_L]);
+            let oi = 1 + r.below((nz - 1) as u64) as usize;
+            let p = cat(&zones[oi].name.clone(), &[L_P]);
+            add_rec(&mut zones[zi], l.clone(), Rd::Cname(p.clone()));
+            add_rec(&mut zones[oi], p.clone(), Rd::Cname(l.clone()));
+            hosts.push(l);
+        }
+        if (kind == "limits" || kind == "loops") && r.chance(2, 3) {
+            // chain k -> l30 -> l31 -> ... -> w
+            let len = r.range(2, 9) as u8;
+            let mut prev = cat(&zn, &[L_K]);
+            hosts.push(prev.clone());
+            for j in 0..len {
+                let nx = cat(&zn, &[30 + j]);
+                add_rec(&mut zones[zi], prev.clone(), Rd::Cname(nx.clone()));
+                prev = nx;
+            }
+            add_rec(&mut zones[zi], prev, Rd::Cname(w.clone()));
+        }
+        if kind == "fan" && (zi == nz - 1 || r.chance(1, 3)) {
+            zones[zi].fan = r.range(2, 4) as u8;
+            hosts.push(cat(&zn, &[27]));
+        }
+        if r.chance(1, 4) {
+            let s = cat(&zn, &[0]);
+            add_rec(&mut zones[zi], s.clone(), Rd::A(hip(r)));
+            hosts.push(s);
+        }
+    }
+    // hostility
+    let evil = Ip::V4(v4(20, 0, 6, 6));
+    let mut hostile = BTreeMap::new();
+    if kind == "hostile" || (kind != "clean" && r.chance(1, 4)) {
+        let all: Vec<Ip> = zones.iter().flat_map(|z| z.servers.clone()).collect();
+        for ip in all {
+            if r.chance(2, 5) {
+                hostile.insert(ip, r.range(1, 4) as u8);
+            }
+        }
+    }
+    // poison records: foreign hosts, delegations to the evil server, aliases
+    let mut poison = vec![];
+    let evil_ns: Nm = EVIL_NS.to_vec();
+    for z in zones.iter() {
+        poison.push(Rr { owner: cat(&z.name, &[L_W]), rd: Rd::A(v4(20, 0, 6, 6)) });
+        poison.push(Rr { owner: z.name.clone(), rd: Rd::Ns(evil_ns.clone()) });
+        poison.push(Rr { owner: cat(&z.name, &[L_V]), rd: Rd::Cname(cat(&evil_ns, &[L_W])) });
+        poison.push(Rr { owner: z.name.clone(), rd: Rd::Soa });
+        for n in &z.ns {
+            poison.push(Rr { owner: n.clone(), rd: Rd::A(v4(20, 0, 6, 6)) });
+        }
+    }
+    poison.push(Rr { owner: evil_ns.clone(), rd: Rd::A(v4(20, 0, 6, 6)) });
+    poison.push(Rr { owner: evil_ns.clone(), rd: Rd::A(v4(20, 0, 6, 6)) });
+    poison.push(Rr { owner: cat(&vec![L_A], &[L_Q]), rd: Rd::Ns(evil_ns.clone()) });
+    let world = World { seed: r.next(), zones, hostile, evil, lame_code: *r.pick(&[5u8, 2, 5, 1]), chain_in_answer: r.chance(1, 2), poison };
+    // configuration
+    let small = kind == "limits" || r.chance(1, 6);
+    let mut rec_limit = if clean { 24 } else if small { *r.pick(&[1u8, 2, 3, 4, 6, 12]) } else { 24 };
+    let mut ns_limit = if clean { 24 } else if small { *r.pick(&[1u8, 2, 3, 4, 5, 6, 8]) } else { 24 };
+    if kind == "fan" {
+        rec_limit = *r.pick(&[3u8, 6, 12, 24, 24]);
+        ns_limit = *r.pick(&[8u8, 24, 24]);
+    }
+    let mut cfg = Cfg { roots: root_ips, rec_limit, ns_limit, min_ttl: r.chance(1, 3), ..Default::default() };
+    if !clean {
+        if r.chance(2, 3) {
+            cfg.deny_server.push((Ip::V4(v4(21, 0, 0, 0)), 8));
+            if r.chance(1, 2) {
+                cfg.allow_server.push((Ip::V4(v4(21, 5, 0, 0)), 16));
+            }
+            if r.chance(1, 3) {
+                cfg.deny_server.push((Ip::V6(0x2001_0db9u128 << 96), 32));
+            }
+        }
+        if r.chance(2, 3) {
+            cfg.deny_answer.push((Ip::V4(v4(22, 0, 0, 0)), 8));
+            if r.chance(1, 2) {
+                cfg.allow_answer.push((Ip::V4(v4(22, 5, 0, 0)), 16));
+            }
+        }
+    }
+    // queries
+    let nq = r.range(3, 6) as usize;
+    let mut queries: Vec<Q> = vec![];
+    let mut expect = vec![];
+    let mut pool: Vec<Nm> = hosts.clone();
+    for z in world.zones.iter().skip(1) {
+        pool.push(z.name.clone());
+        pool.push(cat(&z.name, &[L_Q]));
+        pool.extend(z.ns.iter().cloned());
+    }
+    for i in 0..nq {
+        if i > 0 && r.chance(1, 4) {
+            let q = r.pick(&queries).clone();
+            queries.push(q);
+            continue;
+        }
+        let mut n = r.pick(&pool).clone();
+        if (kind == "fan" || kind == "limits" || kind == "loops") && r.chance(1, 2) {
+            let special: Vec<&Nm> = hosts.iter().filter(|h| matches!(h.last(), Some(&27) | Some(&L_K) | Some(&L_L))).collect();
+            if !special.is_empty() {
+                n = (*r.pick(&special)).clone();
+            }
+        }
+        if r.chance(1, 10) {
+            n = cat(&n, &[L_P, L_Q]);
+        }
+        if r.chance(1, 25) {
+            n = vec![];
+        }
+        if r.chance(1, 25) {
+            n = cat(&n, &[0]);
+        }
+        let t = match r.below(20) {
+            0..=10 => T_A,
+            11 => T_AAAA,
+            12 | 13 => T_NS,
+            14 => T_CNAME,
+            15 => T_SOA,
+            16 => T_TXT,
+            17 => T_DS,
+            18 => T_ANY,
+            _ => T_A,
+        };
+        queries.push((n, t));
+    }
+    if clean {
+        for (i, q) in queries.iter().enumerate() {
+            if q.1 == T_A || q.1 == T_AAAA {
+                // direct host data?
+                for z in world.zones.iter().skip(1) {
+                    if let Some(rs) = z.recs.get(&q.0) {
+                        let m: Vec<Rr> = rs.iter().filter(|d| rtype(d) == q.1).map(|d| Rr { owner: q.0.clone(), rd: d.clone() }).collect();
+                        let deepest = world.zones.iter().filter(|y| is_sub(&y.name, &q.0)).map(|y| y.name.len()).max().unwrap();
+                        if !m.is_empty() && z.name.len() == deepest {
+                            expect.push((i, 0u8, m));
+                        }
+                    }
+                }
+            }
+        }
+    }
+    Gen { world, cfg, queries, kind, expect }
+}
+
+// ---------------------------------------------------------------------------------------------
+// oracle: the property evaluated on what the implementation did, without the model
+
+fn net_contains(n: &(Ip, u8), a: Ip) -> bool {
+    match (n.0, a) {
+        (Ip::V4(b), Ip::V4(x)) => {
+            let sh = 32 - n.1 as u32;
+            sh >= 32 || (b >> sh) == (x >> sh)
+        }
+        (Ip::V6(b), Ip::V6(x)) => {
+            let sh = 128 - n.1 as u32;
+            sh >= 128 || (b >> sh) == (x >> sh)
+        }
+        _ => false,
+    }
+}
+fn acl_denied(allow: &[(Ip, u8)], deny: &[(Ip, u8)], a: Ip) -> bool {
+    deny.iter().any(|n| net_contains(n, a)) && !allow.iter().any(|n| net_contains(n, a))
+}
+
+struct OracleOut {
+    fail: Option<String>,
+    known: Option<String>,
+}
+
+fn rd_ip(d: &Rd) -> Option<Ip> {
+    match d {
+        Rd::A(x) => Some(Ip::V4(*x)),
+        Rd::Aaaa(x) => Some(Ip::V6(*x)),
+        _ => None,
+    }
+}
+
+/// liberal closure of "who may speak for which zone", from the logged traffic only.
+/// loose = also accept addresses taken from the answer section of an address query for the NS
+/// name whatever their owner (the known-finding class)
+fn authority(cfg: &Cfg, log: &[(Ip, Q, Resp)], loose: bool) -> BTreeSet<(Ip, Nm)> {
+    let mut cands: BTreeSet<Nm> = BTreeSet::new();
+    for (_, q, _) in log {
+        for k in 1..=q.0.len() {
+            cands.insert(q.0[..k].to_vec());
+        }
+    }
+    let mut auth: BTreeSet<(Ip, Nm)> = cfg.roots.iter().map(|r| (*r, vec![])).collect();
+    loop {
+        let mut nsf: BTreeSet<(Nm, Nm)> = BTreeSet::new(); // (delegator zone, ns name)
+        let mut adf: BTreeSet<(Nm, Ip)> = BTreeSet::new(); // (name, address)
+        for (ip, q, resp) in log {
+            for (ai, z) in auth.iter() {
+                if ai != ip {
+                    continue;
+                }
+                for (sec, rs) in [(0, &resp.an), (1, &resp.au), (2, &resp.ad)] {
+                    for r in rs.iter() {
+                        let inb = is_sub(z, &r.owner);
+                        if let (Rd::Ns(t), true) = (&r.rd, inb) {
+                            nsf.insert((z.clone(), t.clone()));
+                        }
+                        if let Some(a) = rd_ip(&r.rd) {
+                            if inb {
+                                adf.insert((r.owner.clone(), a));
+                            }
+                            if loose && sec == 0 && (q.1 == T_A || q.1 == T_AAAA) && is_sub(z, &q.0) {
+                                adf.insert((q.0.clone(), a));
+                            }
+                        }
+                    }
+                }
+            }
+        }
+        let mut add = vec![];
+        for (zp, n) in &nsf {
+            for (n2, a) in &adf {
+                if n2 == n {
+                    for c in &cands {
+                        if is_sub(zp, c) && !auth.contains(&(*a, c.clone())) {
+                            add.push((*a, c.clone()));
+                        }
+                    }
+                }
+            }
+        }
+        if add.is_empty() {
+            return auth;
+        }
+        auth.extend(add);
+    }
+}
+
+fn legit(auth: &BTreeSet<(Ip, Nm)>, log: &[(Ip, Q, Resp)], r: &Rr) -> bool {
+    log.iter().any(|(ip, _, resp)| {
+        (resp.an.contains(r) || resp.au.contains(r) || resp.ad.contains(r)) && auth.iter().any(|(a, z)| a == ip && is_sub(z, &r.owner))
+    })
+}
+
+/// upper bound on upstream queries for one resolution: Model.v [query_bound] with w = the
+/// largest number of NS records in any reply seen
+fn query_bound(cfg: &Cfg, w: u64) -> u64 {
+    let cap = 1u64 << 50;
+    // walk_bound w k: 0 for k <= 1, else 1 + 2w + (w+1) * walk_bound w (k-1)
+    let mut wb = 0u64;
+    for k in 0..=(cfg.ns_limit as u64) {
+        wb = if k <= 1 { 0 } else { (1 + 2 * w).saturating_add((w + 1).saturating_mul(wb)).min(cap) };
+    }
+    66u64.saturating_mul(wb + 1).min(cap)
+}
+
+fn oracle(g: &Gen, obs: &[Obs], log: &[(Ip, Q, Resp)], cap: usize) -> OracleOut {
+    let cfg = &g.cfg;
+    let mut genuine: Vec<String> = vec![];
+    let mut known_a: Vec<String> = vec![]; // C19-glueless-address-owner
+    let mut known_b: Vec<String> = vec![]; // C19-negative-unfiltered
+    let strict = authority(cfg, log, false);
+    let loose = authority(cfg, log, true);
+    if log.len() >= cap {
+        genuine.push(format!("more than {cap} upstream queries"));
+    }
+    let wn = log.iter().map(|(_, _, r)| r.an.iter().chain(&r.au).chain(&r.ad).filter(|x| matches!(x.rd, Rd::Ns(_))).count()).max().unwrap_or(0) as u64;
+    let b = query_bound(cfg, wn);
+    // ground truth on clean worlds
+    for (i, cl, recs) in &g.expect {
+        let o = &obs[*i];
+        if o.class != *cl || !recs.iter().all(|r| o.an.contains(r)) {
+            let q = &g.queries[*i];
+            genuine.push(format!("query {} {} T{} on an honest, well-formed internet: expected class {} with [{}], got {}", i, nm_text(&q.0), q.1, cl, rrs_text(recs), obs_text(o)));
+        }
+    }
+    for (i, o) in obs.iter().enumerate() {
+        let q = &g.queries[i];
+        let qtxt = format!("query {} {} T{}", i, nm_text(&q.0), q.1);
+        if o.class >= 8 {
+            genuine.push(format!("{qtxt}: did not end with an answer or a recognised error: {}", o.detail));
+        }
+        if cfg.rec_limit > 0 {
+            // alias distance from the query name, counted in replies: every alias target in a
+            // reply to (n, qtype) is one nested resolution further than n
+            let mut dist: BTreeMap<Nm, u32> = BTreeMap::new();
+            dist.insert(q.0.clone(), 0);
+            let mut changed = true;
+            while changed {
+                changed = false;
+                for (_, lq, resp) in log {
+                    if lq.1 != q.1 {
+                        continue;
+                    }
+                    let Some(d) = dist.get(&lq.0).copied() else { continue };
+                    for r in resp.an.iter().chain(&resp.au).chain(&resp.ad) {
+                        if let Rd::Cname(t) = &r.rd {
+                            if dist.get(t).map_or(true, |x| *x > d + 1) {
+                                dist.insert(t.clone(), d + 1);
+                                changed = true;
+                            }
+                        }
+                    }
+                }
+            }
+            let targets: BTreeSet<&Nm> = o.contacted.iter().filter(|(_, cq)| cq.1 == q.1 && cq.0.last().map_or(false, |l| *l > 26 && *l < 230) && dist.get(&cq.0).map_or(false, |d| *d >= 1)).map(|(_, cq)| &cq.0).collect();
+            if targets.len() > 64 {
+                genuine.push(format!("{qtxt}: {} distinct alias targets were resolved in one resolution (MAX_CNAME_LOOKUPS is 64)", targets.len()));
+            }
+            for (_, cq) in &o.contacted {
+                // only names that are nothing but alias targets: labels 27.. (chains, fan-out)
+                if cq.1 == q.1 && cq.0.last().map_or(false, |l| *l > 26 && *l < 230) {
+                    if let Some(d) = dist.get(&cq.0) {
+                        if *d >= cfg.rec_limit as u32 {
+                            genuine.push(format!("{qtxt}: followed aliases to {} at alias distance {} although recursion_limit is {}", nm_text(&cq.0), d, cfg.rec_limit));
+                        }
+                    }
+                }
+            }
+        }
+        if o.nsent as u64 > b {
+            genuine.push(format!("{qtxt}: {} upstream queries, bound {b}", o.nsent));
+        }
+        for (ip, cq) in &o.contacted {
+            if !cfg.roots.contains(ip) && acl_denied(&cfg.allow_server, &cfg.deny_server, *ip) {
+                genuine.push(format!("{qtxt}: contacted {} which the server filter denies", to_ip(*ip)));
+            }
+            let ok = |a: &BTreeSet<(Ip, Nm)>| a.iter().any(|(x, z)| x == ip && is_sub(z, &cq.0));
+            if !ok(&strict) {
+                if ok(&loose) {
+                    known_a.push(format!("{qtxt}: {} asked for {} T{}: its address was only learned from an answer record whose owner is not the name server's name", to_ip(*ip), nm_text(&cq.0), cq.1));
+                } else {
+                    genuine.push(format!("{qtxt}: {} asked for {} T{} without being in authority for any enclosing zone (out-of-bailiwick data used as a server address)", to_ip(*ip), nm_text(&cq.0), cq.1));
+                }
+            }
+        }
+        if o.class == 0 {
+            for r in o.an.iter().chain(&o.au).chain(&o.ad) {
+                if let Some(a) = rd_ip(&r.rd) {
+                    if acl_denied(&cfg.allow_answer, &cfg.deny_answer, a) {
+                        genuine.push(format!("{qtxt}: returned address {} which the answer filter denies", to_ip(a)));
+                    }
+                }
+                if !legit(&strict, log, r) {
+                    if legit(&loose, log, r) {
+                        known_a.push(format!("{qtxt}: returned [{}] from a server reached through an address of that kind", rr_text(r)));
+                    } else {
+                        genuine.push(format!("{qtxt}: returned out-of-bailiwick record [{}]: no server in authority over its owner sent it", rr_text(r)));
+                    }
+                }
+            }
+        } else if o.class <= 3 {
+            for r in o.au.iter().chain(&o.ad) {
+                if !legit(&loose, log, r) {
+                    known_b.push(format!("{qtxt}: error result (class {}) carries out-of-bailiwick record [{}]", o.class, rr_text(r)));
+                }
+            }
+        }
+    }
+    if !genuine.is_empty() {
+        OracleOut { fail: Some(genuine.join("; ")), known: None }
+    } else if !known_a.is_empty() {
+        OracleOut { fail: Some(known_a.join("; ")), known: Some("C19-glueless-address-owner".into()) }
+    } else if !known_b.is_empty() {
+        OracleOut { fail: Some(known_b.join("; ")), known: Some("C19-negative-unfiltered".into()) }
+    } else {
+        OracleOut { fail: None, known: None }
+    }
+}
+
+// ---------------------------------------------------------------------------------------------
+// Coq terms
+
+fn coq_nm(n: &Nm) -> String {
+    format!("[{}]", n.iter().map(|l| l.to_string()).collect::<Vec<_>>().join(";"))
+}
+fn coq_ip(ip: Ip) -> String {
+    match ip {
+        Ip::V4(x) => format!("V4 {x}"),
+        Ip::V6(x) => format!("V6 {x}"),
+    }
+}
+fn coq_rr(r: &Rr) -> String {
+    let d = match &r.rd {
+        Rd::A(x) => format!("(RA {x})"),
+        Rd::Aaaa(x) => format!("(RAAAA {x})"),
+        Rd::Ns(n) => format!("(RNS {})", coq_nm(n)),
+        Rd::Cname(n) => format!("(RCNAME {})", coq_nm(n)),
+        Rd::Soa => "RSOA".to_string(),
+        Rd::Other(t) => format!("(ROther {t})"),
+    };
+    format!("R {} {}", coq_nm(&r.owner), d)
+}
+fn coq_rrs(v: &[Rr]) -> String {
+    format!("[{}]", v.iter().map(coq_rr).collect::<Vec<_>>().join(";"))
+}
+fn coq_q(q: &Q) -> String {
+    format!("({},{})", coq_nm(&q.0), q.1)
+}
+fn coq_resp(r: &Resp) -> String {
+    format!("M {} {} {} {} {}", r.rcode, r.aa, coq_rrs(&r.an), coq_rrs(&r.au), coq_rrs(&r.ad))
+}
+fn coq_nets(v: &[(Ip, u8)]) -> String {
+    format!(
+        "[{}]",
+        v.iter()
+            .map(|(ip, l)| match ip {
+                Ip::V4(x) => format!("mkNet false {x} {l}"),
+                Ip::V6(x) => format!("mkNet true {x} {l}"),
+            })
+            .collect::<Vec<_>>()
+            .join(";")
+    )
+}
+fn coq_cfg(c: &Cfg) -> String {
+    format!(
+        "(mkCfg [{}] {} {} (mkAcs {} {}) (mkAcs {} {}) {})",
+        c.roots.iter().map(|i| coq_ip(*i)).collect::<Vec<_>>().join(";"),
+        c.rec_limit,
+        c.ns_limit,
+        coq_nets(&c.allow_server),
+        coq_nets(&c.deny_server),
+        coq_nets(&c.allow_answer),
+        coq_nets(&c.deny_answer),
+        c.min_ttl
+    )
+}
+
+fn coq_case(g: &Gen, obs: &[Obs], log: &[(Ip, Q, Resp)]) -> String {
+    let mut seen = BTreeSet::new();
+    let mut tbl = vec![];
+    for (ip, q, r) in log {
+        if seen.insert((*ip, q.clone())) {
+            tbl.push(format!("({},{},{})", coq_ip(*ip), coq_q(q), coq_resp(r)));
+        }
+    }
+    let steps: Vec<String> = g
+        .queries
+        .iter()
+        .zip(obs)
+        .map(|(q, o)| {
+            format!(
+                "({},O {} {} {} {} [{}])",
+                coq_q(q),
+                o.class,
+                coq_rrs(&o.an),
+                coq_rrs(&o.au),
+                coq_rrs(&o.ad),
+                o.contacted.iter().map(|(ip, cq)| format!("({},{})", coq_ip(*ip), coq_q(cq))).collect::<Vec<_>>().join(";")
+            )
+        })
+        .collect();
+    format!("CRun {} [{}] [{}]", coq_cfg(&g.cfg), tbl.join(";"), steps.join(";"))
+}
+
+
+// ---------------------------------------------------------------------------------------------
+// stub resolver alias chase: CachingClient over a scripted upstream
+
+use hickory_net::runtime::TokioRuntimeProvider;
+use hickory_net::xfer::DnsHandle;
+use hickory_net::NetError;
+use hickory_proto::op::{DnsRequest, DnsRequestOptions, DnsResponse};
+use hickory_resolver::caching_client::CachingClient;
+
+/// what the upstream says about a name (for the queried type)
+#[derive(Clone, Debug, PartialEq, Eq)]
+enum SRep {
+    /// address records at the name
+    Found,
+    /// alias to another name, target data not included
+    Cname(Nm),
+    /// two aliases in one reply: name -> mid -> target, target data not included
+    Cname2(Nm, Nm),
+    NxDomain,
+    NoData,
+    ServFail,
+}
+
+#[derive(Clone)]
+struct Scripted {
+    script: Arc<BTreeMap<Nm, SRep>>,
+    log: Arc<Mutex<Vec<Q>>>,
+}
+
+impl DnsHandle for Scripted {
+    type Response = futures_util::stream::Once<futures_util::future::Ready<Result<DnsResponse, NetError>>>;
+    type Runtime = TokioRuntimeProvider;
+
+    fn send(&self, request: DnsRequest) -> Self::Response {
+        let query = request.queries[0].clone();
+        let qn = from_name(&query.name);
+        let qt = u16::from(query.query_type);
+        self.log.lock().unwrap().push((qn.clone(), qt));
+        let rep = self.script.get(&qn).cloned().unwrap_or(SRep::NxDomain);
+        let soa = Rr { owner: vec![], rd: Rd::Soa };
+        let resp = match rep {
+            SRep::Found => Resp { rcode: 0, aa: true, an: vec![Rr { owner: qn.clone(), rd: if qt == T_AAAA { Rd::Aaaa(7) } else { Rd::A(v4(20, 1, 1, 1)) } }], au: vec![], ad: vec![] },
+            SRep::Cname(t) => Resp { rcode: 0, aa: true, an: vec![Rr { owner: qn.clone(), rd: Rd::Cname(t) }], au: vec![], ad: vec![] },
+            SRep::Cname2(m, t) => Resp { rcode: 0, aa: true, an: vec![Rr { owner: qn.clone(), rd: Rd::Cname(m.clone()) }, Rr { owner: m, rd: Rd::Cname(t) }], au: vec![], ad: vec![] },
+            SRep::NxDomain => Resp { rcode: 3, aa: true, an: vec![], au: vec![soa], ad: vec![] },
+            SRep::NoData => Resp { rcode: 0, aa: true, an: vec![], au: vec![soa], ad: vec![] },
+            SRep::ServFail => Resp { rcode: 2, ..Default::default() },
+        };
+        let msg = to_message(request.metadata.id, &query, &resp);
+        futures_util::stream::once(futures_util::future::ready(DnsResponse::from_message(msg).map_err(NetError::from)))
+    }
+}
+
+fn stub_case(seed: u64, index: u64, r: &mut Rng) -> CaseOut {
+    // names: single labels 1..=n under label 3 ("c."), to stay clear of special-use names
+    let n = r.range(2, 7) as u8;
+    let name = |k: u8| -> Nm { vec![3, k] };
+    let mut script: BTreeMap<Nm, SRep> = BTreeMap::new();
+    let style = r.below(4);
+    for k in 1..=n {
+        let rep = match style {
+            // long chain 1 -> 2 -> ... -> n
+            0 => {
+                if k < n {
+                    SRep::Cname(name(k + 1))
+                } else {
+                    r.pick(&[SRep::Found, SRep::Found, SRep::NxDomain, SRep::NoData]).clone()
+                }
+            }
+            // loop
+            1 => SRep::Cname(name(k % n + 1)),
+            _ => match r.below(8) {
+                0 | 1 => SRep::Found,
+                2 => SRep::NxDomain,
+                3 => SRep::NoData,
+                4 => SRep::ServFail,
+                5 => SRep::Cname2(name(r.range(1, n as u64) as u8), name(r.range(1, n as u64 + 1) as u8)),
+                _ => SRep::Cname(name(r.range(1, n as u64 + 1) as u8)),
+            },
+        };
+        script.insert(name(k), rep);
+    }
+    // long chains beyond the limit
+    if style == 0 && r.chance(1, 2) {
+        for k in n + 1..n + 12 {
+            script.insert(name(k - 1), SRep::Cname(name(k)));
+            script.insert(name(k), SRep::Found);
+        }
+    }
+    let qt = *r.pick(&[T_A, T_A, T_AAAA]);
+    let q: Q = (name(1), qt);
+    let preserve = r.chance(1, 2);
+    let log = Arc::new(Mutex::new(vec![]));
+    let handle = Scripted { script: Arc::new(script.clone()), log: log.clone() };
+    let rt = tokio::runtime::Builder::new_current_thread().enable_time().start_paused(true).build().unwrap();
+    let res = rt.block_on(async {
+        let client = CachingClient::new(64, handle, preserve);
+        let fut = client.lookup(Query::new(to_name(&q.0), to_rtype(q.1)), DnsRequestOptions::default());
+        tokio::time::timeout(Duration::from_secs(600), fut).await
+    });
+    let (class, detail) = match &res {
+        Err(_) => (9u8, "hang".to_string()),
+        Ok(Ok(l)) => (0u8, format!("{} answers", l.answers().len())),
+        Ok(Err(e)) => (1u8, format!("{e}")),
+    };
+    let sent = log.lock().unwrap().clone();
+    let mut fail = None;
+    if class == 9 {
+        fail = Some("stub lookup did not finish".to_string());
+    } else if sent.len() > 8 {
+        fail = Some(format!("stub resolver sent {} upstream queries chasing aliases (MAX_QUERY_DEPTH is 8)", sent.len()));
+    }
+    let coq_rep = |rep: &SRep| -> String {
+        match rep {
+            SRep::Found => "SFound".into(),
+            SRep::Cname(t) => format!("SCname {}", coq_nm(t)),
+            SRep::Cname2(_, t) => format!("SCname {}", coq_nm(t)),
+            _ => "SNone".into(),
+        }
+    };
+    let coq = format!(
+        "CStub [{}] {} [{}] {}",
+        script.iter().map(|(k, v)| format!("({},{})", coq_nm(k), coq_rep(v))).collect::<Vec<_>>().join(";"),
+        coq_q(&q),
+        sent.iter().map(coq_q).collect::<Vec<_>>().join(";"),
+        class
+    );
+    let stext = script.iter().map(|(k, v)| format!("{}={:?}", nm_text(k), v)).collect::<Vec<_>>().join(" ");
+    CaseOut {
+        index,
+        coq,
+        text: format!("seed={seed} index={index} stub preserve={preserve} script=[{stext}] query={} T{} => class={class} sent={} ({detail})", nm_text(&q.0), q.1, sent.len()),
+        key: format!("{script:?}|{q:?}|{preserve}"),
+        nontrivial: sent.len() >= 2,
+        kind: "stub".into(),
+        oracle_fail: fail,
+        known: None,
+    }
+}
+
+const CAP: usize = 4000;
+
+fn case(seed: u64, index: u64) -> CaseOut {
+    let mut r = Rng::for_case(seed, index);
+    if index % 16 == 15 {
+        return stub_case(seed, index, &mut r);
+    }
+    let g = gen_case(&mut r, index);
+    let world = Arc::new(g.world.clone());
+    let run = guard(std::panic::AssertUnwindSafe(|| run_case(&g.cfg, world, &g.queries, CAP)));
+    let (obs, log) = match run {
+        Ok(x) => x,
+        Err(p) => {
+            let qs: Vec<String> = g.queries.iter().map(|q| format!("{} T{}", nm_text(&q.0), q.1)).collect();
+            return CaseOut {
+                index,
+                coq: format!("CRun {} [] [(([],1),O 98 [] [] [] [])]", coq_cfg(&g.cfg)),
+                text: format!("seed={seed} index={index} {} limits={}/{} queries=[{}] => PANIC {p}", g.kind, g.cfg.rec_limit, g.cfg.ns_limit, qs.join(", ")),
+                key: format!("{:?}|{:?}", g.cfg, g.queries),
+                nontrivial: false,
+                kind: g.kind.to_string(),
+                oracle_fail: Some(format!("the recursor panicked: {p}")),
+                known: None,
+            };
+        }
+    };
+    let o = oracle(&g, &obs, &log, CAP);
+    let coq = coq_case(&g, &obs, &log);
+    let qtext: Vec<String> = g.queries.iter().zip(&obs).map(|(q, o)| format!("{} T{} -> {}", nm_text(&q.0), q.1, obs_text(o))).collect();
+    let zones: Vec<String> = g
+        .world
+        .zones
+        .iter()
+        .map(|z| format!("{}@{}{} ns={}", nm_text(&z.name), z.servers.iter().map(|i| to_ip(*i).to_string()).collect::<Vec<_>>().join("+"), if z.glue { "" } else { "(noglue)" }, z.ns.iter().map(nm_text).collect::<Vec<_>>().join("+")))
+        .collect();
+    let key = format!("{:?}|{:?}|{:?}|{:?}", g.cfg, g.world.zones, g.world.hostile, g.queries);
+    let text = format!(
+        "seed={seed} index={index} {} limits={}/{} minttl={} deny_srv={:?} deny_ans={:?} hostile={:?} zones=[{}] :: {}",
+        g.kind,
+        g.cfg.rec_limit,
+        g.cfg.ns_limit,
+        g.cfg.min_ttl,
+        g.cfg.deny_server.iter().map(net_str).collect::<Vec<_>>(),
+        g.cfg.deny_answer.iter().map(net_str).collect::<Vec<_>>(),
+        g.world.hostile.iter().map(|(i, h)| format!("{}:{h}", to_ip(*i))).collect::<Vec<_>>(),
+        zones.join(" | "),
+        qtext.join(" ;; ")
+    );
+    CaseOut {
+        index,
+        coq,
+        text,
+        key,
+        nontrivial: log.len() >= 3,
+        kind: g.kind.to_string(),
+        oracle_fail: o.fail,
+        known: o.known,
+    }
 }
 
 // ---------------------------------------------------------------------------------------------
@@ -431,12 +1506,30 @@ fn probe() {
 
 fn main() {
     let args = parse_args();
-    if !args.extra.contains_key("probe") {
-        quiet_panics();
-    }
     if args.extra.contains_key("probe") {
         probe();
         return;
     }
-    let _ = (BTreeMap::<u8, u8>::new(), BTreeSet::<u8>::new());
+    quiet_panics();
+    if let Some((seed, index)) = args.replay {
+        let c = case(seed, index);
+        println!("{}", c.text);
+        println!("COQ {}", c.coq);
+        if let Some(f) = c.oracle_fail {
+            println!("ORACLE-FAIL {f}");
+        }
+        return;
+    }
+    let mut cases = vec![];
+    for index in 0..args.n {
+        cases.push(case(args.seed, index));
+    }
+    emit(
+        "C19",
+        "C19",
+        &args,
+        &cases,
+        "one case = one simulated internet (root + up to 3 levels of zones, 1-2 servers per zone, NS names in-zone/in the parent/in other zones/nonexistent/at the apex, with or without glue, lame servers, CNAME chains/loops/fan-out, hostile servers appending foreign records to any section) + a recursor configuration (limits, server and answer filters, minimum TTLs) + 3-6 client queries run in sequence on one Recursor. Non-trivial = at least 3 upstream queries; distinct by (configuration, zone tree, hostile set, queries).",
+        serde_json::json!({}),
+    );
 }
